@@ -1,12 +1,15 @@
 """C02 — parallel evaluation equals serial evaluation under every schedule."""
 from . import core, eng, gen, engcheck
 
-THEOREMS = ["runPar_eq_leastModel", "par_eq_serial", "par_schedule_independent", "nd_eq_leastModel", "nd_runs_agree", "par_is_nd"]
+THEOREMS = ["runPar_eq_leastModel", "par_eq_serial", "par_schedule_independent", "nd_eq_leastModel", "nd_runs_agree", "par_is_nd", "runPhysPar_eq_leastModel", "runPhysPar_schedule_pool_independent", "tcPar_hyps"]
 TRUSTED = ["Lean 4.33.0 kernel", "axioms: propext, Classical.choice, Quot.sound only (audited per theorem)",
            "statement: Props/C02.lean (the parallel iteration as an arbitrary interleaving of atomic head updates over frozen total/delta; "
            "every schedule computes the least model, hence equals the serial result)",
            "Props/C02ND.lean: the engine as a relation (Proofs/NDEngine.lean) - per pass ANY list of head rows set-equal to the rows of all variant instances, "
            "any order and multiplicity - computes the least model (nd_eq_leastModel); every schedule of the parallel engine is such an execution (par_is_nd)",
+           "Props/C02Phys.lean runPhysPar_eq_leastModel: for EVERY schedule (order of index inserts and of an iteration's head updates, worker of every insert, outcome of every sampled "
+           "len_estimate comparison), every pool size and fuel, from every typed program value, the ascent_par! code over its concurrent indices NEVER PANICS (no index is read while unfrozen or "
+           "written while frozen) and, if it returns, holds exactly the least model; the result is again a value run() may be called on",
            "Model/EnginePhysPar.lean (the ascent_par! code over its concurrent indices with the frozen / unfrozen protocol, panics included) is what the Lean side runs for the "
            "relational programs of this tie (`eng runpp`), in a pool of the same size: relations and scc_iters must agree and the model must not panic",
            "tie: ascent_par! twins of generated programs (relations, lattices, aggregation, with and without #![inter_rule_parallelism]) run in pools "
@@ -86,7 +89,7 @@ def canon(c, out):
 
 
 def check(tier, replay=None):
-    return engcheck.run_property("C02", tier, modules=["AscentVerif.Props.C02", "AscentVerif.Props.C02ND"], theorems=THEOREMS, trusted=TRUSTED, group="c02",
+    return engcheck.run_property("C02", tier, modules=["AscentVerif.Props.C02", "AscentVerif.Props.C02ND", "AscentVerif.Props.C02Phys"], theorems=THEOREMS, trusted=TRUSTED, group="c02",
                                  build=build, oracle=oracle, known=known, what="ascent_par! programs under perturbed schedules",
                                  rule="ascent_par! twins of generated relational / lattice / aggregation programs, with and without #![inter_rule_parallelism], constructed and run "
                                       "in pools of 1..16 threads, under seeded perturbation (yield / spin / sleep at every concurrent index insert); every run must equal the "
